@@ -14,10 +14,15 @@ COMMON_ASSUMPTIONS = [
 ]
 
 
-def K(name, bound, claim, functions, tier="quick", stubs=(), min_covers=1):
+def K(name, bound, claim, functions, tier="quick", stubs=(), min_covers=1, cbmc_args=()):
     return {"engine": "kani", "name": name, "bound": bound, "claim": claim,
             "functions": list(functions), "tier": tier, "stubs": list(stubs),
-            "min_covers": min_covers}
+            "min_covers": min_covers, "cbmc_args": list(cbmc_args)}
+
+
+# CBMC treats arrays above 64 elements through the array theory (no constant propagation
+# per element); sozu's 232-byte PROXY staging buffer etc. need per-element treatment
+FS256 = ["--max-field-sensitivity-array-size", "256"]
 
 
 def M(name, bound, claim, functions, tier="quick", **kw):
@@ -73,5 +78,45 @@ REGISTRY["C11"] = {
         K("c11::c11_write_grow_bounded_len4", "same, ALL (frames 0..2, drained 0..9*frames) positions enumerated concretely, contents symbolic; unwind 21",
           "as above, every drain offset", CH, tier="thorough"),
         K("c11::c11_write_grow_bounded_len0", "same with an empty payload (8-byte frame)", "as above, empty message", CH, tier="thorough"),
+    ],
+}
+
+PP = ["lib/src/protocol/proxy_protocol/header.rs", "lib/src/protocol/proxy_protocol/parser.rs"]
+EX = ["lib/src/protocol/proxy_protocol/expect.rs"] + PP
+_win = "window model: v4 upgrades exactly when 28 bytes are in, v6 at 52 (window 28 then 52); socket reads never go past the header; addresses recorded == header's; metrics.bin == bytes read"
+REGISTRY["C18"] = {
+    "technique": "bounded model checking (Kani/CBMC, SAT) of the PROXY v2 codec, nom parser and ExpectProxyProtocol::readable over a scripted socket",
+    "level_text": "CBMC decides, for all IPv4/IPv6 addresses, ports and payload bytes, that HeaderV2::into_bytes emits the exact v2 wire layout and parse_v2_header inverts it; that the parser is total on every input up to 60 bytes (no panic, exact consumption, error classes); and that ExpectProxyProtocol::readable over an in-memory socket upgrades at exactly the header end for the listed fragmentations, closes on malformed input and records the header's addresses. Bounded, not a proof.",
+    "level_note": "Fragmentations are enumerated concretely (chunk sizes per wake-up), header control bytes concrete, address and payload bytes symbolic; Pipe/splice relay, send-mode socket loop and relay mode are outside the claim.",
+    "rule": "C18: one harness per codec direction / parser bound / fragmentation scenario.",
+    "trusted_base": ["scripted in-memory SocketHandler (returns Continue when the slice was filled, else WouldBlock) stands in for the kernel socket"],
+    "assumptions": ["SocketHandler::socket_read never returns more than the slice it was given (readable()'s own debug_assert)"],
+    "residual": "Pipe (both directions, half-close ordering, back-pressure), splice, SendProxyProtocol::back_writable socket loop, RelayProxyProtocol, fragmentations other than the enumerated ones, PROXY v1 (unused).",
+    "obligations": [
+        K("c18::c18_ppv2_roundtrip_v4", "all IPv4 src/dst addresses and ports, both commands; unwind 17",
+          "into_bytes == spec layout byte for byte (sig, ver|cmd, 0x11, len 12, addrs, ports), len()==28, parse_v2_header(into_bytes(h)) == (empty rest, h)", PP),
+        K("c18::c18_ppv2_roundtrip_v6", "all IPv6 src/dst addresses (flowinfo/scope 0) and ports, both commands; unwind 18",
+          "same for the 52-byte IPv6 header", PP),
+        K("c18::c18_ppv2_mixed_family_is_unspec", "all v4/v6 mixed pairs; unwind 14",
+          "mixed families degrade to a well-formed 16-byte UNSPEC header that parses back", PP),
+        K("c18::c18_ppv2_parser_total_32", "every input of 0..32 bytes; unwind 18",
+          "no panic; Ok => consumed == 16+declared and fields == input bytes; Incomplete only when frame bytes are missing or the declared block is shorter than the family needs; Error never for a well-formed frame; bad signature/command/family => Error", PP, min_covers=5),
+        K("c18::c18_ppv2_parser_total_60", "every input of 0..60 bytes (covers full IPv6 headers and TLV tails); unwind 18",
+          "same", PP, tier="thorough", min_covers=5),
+        K("c18::c18_expect_window_v4_one_segment", "28-byte v4 header (all addresses/ports) + 36 symbolic payload bytes in one segment; FS256", _win, EX, cbmc_args=FS256),
+        K("c18::c18_expect_window_v4_split_16_12", "same, header delivered 16 + 12", _win, EX, cbmc_args=FS256),
+        K("c18::c18_expect_window_v6_one_segment", "52-byte v6 header (all addresses/ports) + 12 payload bytes in one segment", _win, EX, cbmc_args=FS256),
+        K("c18::c18_expect_window_v6_split_29", "same, delivered 29 + rest (crosses the 28-byte stage)", _win, EX, cbmc_args=FS256),
+        K("c18::c18_expect_window_three_pieces", "v4: [0,12,4,..] [13,0,15,..] [27,1,..]; v6: [12,16,24] [28,0,24] [51,1,..] incl. empty wake-ups", _win, EX, cbmc_args=FS256),
+        K("c18::c18_expect_window_v4_all_cuts", "v4 header cut at every position 0..28", _win, EX, tier="thorough", cbmc_args=FS256),
+        K("c18::c18_expect_window_v6_boundary_cuts", "v6 header cut at {0,1,12,13,16,27,28,29,40,51,52}", _win, EX, tier="thorough", cbmc_args=FS256),
+        K("c18::c18_expect_bad_signature_first_byte_closes", "any wrong first signature byte, 1-byte first segment", "malformed => Close at once, no address recorded, never Upgrade", EX, cbmc_args=FS256),
+        K("c18::c18_expect_bad_signature_last_byte_closes", "any wrong 12th signature byte, delivered 5+7+rest", "same", EX, cbmc_args=FS256),
+        K("c18::c18_expect_bad_command_closes", "any ver/cmd byte other than 0x20/0x21, delivered 12+1+rest", "same", EX, cbmc_args=FS256),
+        K("c18::c18_expect_bad_family_closes", "any family nibble > 2 (UNIX, reserved)", "same (closes once the declared block is in)", EX, cbmc_args=FS256),
+        K("c18::c18_expect_no_overread_local_unspec", "16-byte LOCAL/UNSPEC header + 48 symbolic payload bytes in one segment",
+          "bytes pulled from the socket == header length (payload is not consumed and dropped)", EX, cbmc_args=FS256),
+        K("c18::c18_expect_no_overread_inet_tlv", "36-byte INET header with 8-byte TLV tail + payload in one segment",
+          "bytes pulled from the socket == header length", EX, cbmc_args=FS256),
     ],
 }
